@@ -48,6 +48,15 @@ def chunkFuel : Nat → Nat → List Entry → List (List Entry)
 def chunks (n : Nat) (es : List Entry) : List (List Entry) :=
   if n = 0 then [es] else chunkFuel es.length n es
 
+/-- The batches `CopyBatched` commits, computed by the loop as it is written: `cur` = what was `Set` into the current
+batch, `cnt` = `currentBatchSize`; the batch is committed when `batchSize != 0 && currentBatchSize >= batchSize`, what is
+left when the iteration ends is the final Commit.  (`Hive/Proofs/KVCopy.lean`: this is `chunks`.) -/
+def loopBatches (n : Nat) : List Entry → Nat → List Entry → List (List Entry)
+  | cur, _, [] => [cur]
+  | cur, cnt, e :: rest =>
+    if n != 0 && cnt + 1 >= n then (cur ++ [e]) :: loopBatches n [] 0 rest
+    else loopBatches n (cur ++ [e]) (cnt + 1) rest
+
 /-- One `Commit` per batch, stopping at the first error. -/
 def copyCommits (ws : List Wrap) (realm : Bytes) : List (List Entry) → Store → Store × Out
   | [], s => (s, .ok)
